@@ -375,7 +375,95 @@ def n_markers(c):
     return sum(len(pat.findall(l.strip())) for l in c['lines'])
 
 
+BAD_EXPRS = ['z-a', '', 'a--', 'b-a0-9', 'a-zZ-A']
+
+
+def run_failures(rep, pool, driver, tier):
+    """failing calls and what they leave behind (C09.create_frame, late_failure_prefix, late_failure_blocks_retry):
+    a set expression `re` rejects (nothing is created), a corpus that stops being valid UTF-8 (header and the
+    events of the lines the text layer yielded stay behind), an allowed_symbols callable that raises on some
+    character (header and the events written so far stay behind)"""
+    r = rng('C09/failures')
+    cs = []
+    while len(cs) < (36 if tier == 'quick' else 400):
+        c = gen_case(r, tier)
+        c['exists'] = False
+        kind = ['bad_pattern', 'unreadable', 'callable_raises'][len(cs) % 3]
+        c['failure'] = kind
+        if kind == 'bad_pattern':
+            c['allowed'] = {'kind': 'expr', 'expr': r.choice(BAD_EXPRS)}
+        elif kind == 'unreadable':
+            if r.random() < 0.3:
+                # a corpus longer than the text layer's 8 KiB chunk: some lines are read before the bad byte is met
+                c['lines'] = [gen_line(r, 0.2) for _ in range(r.randint(150, 400))]
+            c['bad_byte_after'] = r.randint(0, len(c['lines']))
+        else:
+            if c['allowed']['kind'] != 'table':
+                c['allowed'] = {'kind': 'table', 'ranges': [['a', 'z'], ['A', 'Z']]}
+            chars = sorted({ch for l in c['lines'] for ch in l if not ch.isspace()})
+            if not chars:
+                continue
+            ch = r.choice(chars)
+            c['raises'] = [[ch, ch]]
+        if table_ok(c):
+            cs.append(c)
+    tasks = []
+    for c in cs:
+        t = impl_task(c)
+        for k in ('bad_byte_after', 'raises'):
+            if k in c:
+                t[k] = c[k]
+        tasks.append(t)
+    impls = pool.map(tasks)
+    reqs = []
+    for c, impl in zip(cs, impls):
+        cm = c
+        if c['failure'] == 'unreadable':
+            cm = dict(c, lines=impl.get('readable') or [])
+        q = model_request(cm)
+        if c['failure'] == 'unreadable':
+            q['unreadable'] = True
+        if 'raises' in c:
+            q['raises'] = c['raises']
+        reqs.append(q)
+    models = driver.ask(reqs)
+    for c, impl, model in zip(cs, impls, models):
+        rep.case({k: c[k] for k in c if k != 'stream'}, nontrivial=True, stream='failing_call')
+        rep.count('failure:%s -> %s' % (c['failure'], model.get('err') or 'returns'))
+        prob = None
+        if impl.get('err') in ('Timeout', 'WorkerDied', 'HarnessError'):
+            prob = 'implementation: %s %s' % (impl.get('err'), impl.get('msg', ''))
+        elif impl.get('err') != model.get('err'):
+            prob = 'failing call: implementation %s (%s), model %s' % (impl.get('err') or 'returns', impl.get('msg', ''), model.get('err') or 'returns')
+        elif 'err' in model:
+            ml = model.get('left')
+            il = impl.get('left')
+            if ml is None:
+                if il is not None or impl.get('listing') != ['corpus.txt']:
+                    prob = 'an early failure must leave nothing behind: listing %s' % impl.get('listing')
+            elif il is None or 'events' not in il:
+                prob = 'late failure: model leaves %d events behind, the implementation left %r' % (len(ml), il)
+            else:
+                rd = c['remove_duplicates']
+                if canon(il['events'], rd) != canon(ml, rd) or il.get('header') != 'cues\toutcomes':
+                    prob = 'late failure: file left behind holds %d events, model %d (first difference at %s)' % (
+                        len(il['events']), len(ml),
+                        next((i for i in range(max(len(il['events']), len(ml)))
+                              if canon(il['events'], rd)[i:i + 1] != canon(ml, rd)[i:i + 1]), None))
+                rep.count('late_failure_left_events:%s' % ('0' if not ml else '1-5' if len(ml) <= 5 else '6+'))
+        else:
+            # the failure did not strike (e.g. the raising character is filtered away before the callable sees it):
+            # an ordinary successful call
+            prob = compare(c, impl, model)
+        if prob:
+            rep.violation({'what': prob, 'input': {k: (v if k != 'lines' or len(v) < 12 else v[:12] + ['...']) for k, v in c.items()},
+                           'observed': {k: impl.get(k) for k in ('err', 'msg', 'left', 'listing', 'readable') if k != 'readable' or len(impl.get('readable') or []) < 12},
+                           'expected': {'err': model.get('err'), 'left': (model.get('left') or [])[:8] if model.get('left') is not None else None},
+                           'theorem_or_stream': 'C09 create_frame / late_failure_prefix: failing create_event_file call (%s)' % c['failure']})
+
+
 def run(rep, pool, driver, tier):
+    run_failures(rep, pool, driver, tier)
     cs = cases(tier)
     results = evaluate_many(pool, driver, cs)
     failures = []
